@@ -91,6 +91,8 @@ def f_ent_special_keys(vmf: VMF) -> None:
 
 def f_out_esc(vmf: VMF) -> None:
     first_ent(vmf).add_out(Output('OnTrigger', 'targ', 'Kill'))
+    first_ent(vmf).add_out(Output('OnTrigger', 'targ', 'Fire', times=5))       # only the fire count differs from the defaults
+    first_ent(vmf).add_out(Output('OnTrigger', 'targ', 'Fire', times=0))
 
 
 def f_out_comma(vmf: VMF) -> None:
@@ -239,6 +241,38 @@ def f_multiblend_partial(vmf: VMF) -> None:
         else:
             v.multi_blend = Vec4()
             v.multi_colors = [Vec(0.5, 0.25, 0.125), Vec(0, 1, 0), Vec(1, 1, 1), Vec(0.75, 0.75, 0)]
+
+
+def f_multiblend_w_only(vmf: VMF) -> None:
+    """Weight only in the fourth blend layer, on a single vertex; every x/y/z weight is zero."""
+    d = first_disp(vmf)
+    for k, v in enumerate(d._disp_verts):  # noqa: SLF001
+        v.multi_blend = Vec4(0.0, 0.0, 0.0, 0.75 if k == 2 else 0.0)
+        v.multi_alpha = Vec4(0.0, 0.0, 0.0, 0.5 if k == 3 else 0.0)
+
+
+def f_disp_fresh(vmf: VMF) -> None:
+    """A displacement exactly as the constructor makes it (every vertex at its defaults), plus whole numbers given as ints
+    for float fields (accepted by the type hints)."""
+    prism = vmf.make_prism(Vec(256, 256, -16), Vec(384, 384, 0), mat='nature/blend')
+    vmf.add_brush(prism.solid)
+    top = prism.top
+    new = Side(vmf, [p.copy() for p in top.planes], mat='nature/blendsand', uaxis=top.uaxis.copy(), vaxis=top.vaxis.copy(),
+               disp_power=2)  # type: ignore[arg-type]
+    prism.solid.sides[prism.solid.sides.index(top)] = new
+    new[1, 1].distance = 5
+    new[2, 1].alpha = 128
+    new.disp_elevation = 3
+
+
+def f_brush_ent_vis_flags(vmf: VMF) -> None:
+    """Visibility flags on solids tied to a brush entity (the world-brush case is f_vis_flags)."""
+    e = vmf.create_ent('func_detail')
+    for i, (shown, auto) in enumerate([(True, True), (False, True), (True, False), (False, False)]):
+        sol = vmf.make_prism(Vec(64 * i, 256, 64), Vec(64 * i + 16, 272, 80)).solid
+        sol.vis_shown = shown
+        sol.vis_auto_shown = auto
+        e.solids.append(sol)
 
 
 def f_fixup_whitespace(vmf: VMF) -> None:
@@ -394,7 +428,7 @@ FEATURES: list[tuple[str, Callable[[VMF], None]]] = [(f.__name__[2:], f) for f i
     f_ent_plain, f_ent_special_values, f_ent_special_keys, f_out_esc, f_out_comma, f_out_inst, f_out_param_comma,
     f_out_delay_frac, f_out_special, f_fixup_one, f_fixup_collide, f_fixup_quote, f_fixup_whitespace, f_ent_hidden, f_brush_ent,
     f_brush_ent_hidden_solid, f_world_prism, f_world_hidden_solid, f_face_arbitrary, f_face_rotation_sig, f_face_mat_name,
-    f_disp1, f_disp2, f_disp3, f_disp4, f_disp_flags, f_multiblend, f_multiblend_default_colors, f_multiblend_partial, f_strata_points, f_visgroups,
+    f_disp1, f_disp2, f_disp3, f_disp4, f_disp_flags, f_multiblend, f_multiblend_default_colors, f_multiblend_partial, f_multiblend_w_only, f_disp_fresh, f_brush_ent_vis_flags, f_strata_points, f_visgroups,
     f_visgroup_membership, f_vis_flags, f_groups, f_camera_one, f_camera_two, f_cordon_one, f_cordon_two, f_strata_views,
     f_strata_views_zero, f_strata_inst_vis, f_view_flags, f_comments, f_logical_pos, f_editor_colors, f_quickhide, f_versions,
     f_cordon_solid, f_worldspawn_keys, f_worldspawn_editor, f_node_ids, f_ent_keys_types,
@@ -443,7 +477,8 @@ def obs_side(f: Side, multiblend: bool = True) -> dict:
         d['disp_allowed'] = list(f.disp_allowed_vert)
         verts = []
         size = f.disp_size
-        any_blend = any(v.multi_blend for v in f._disp_verts)
+        # own zero test (not the library's Vec4.__bool__): any non-zero weight in any of the four layers
+        any_blend = any((v.multi_blend.x, v.multi_blend.y, v.multi_blend.z, v.multi_blend.w) != (0.0, 0.0, 0.0, 0.0) for v in f._disp_verts)
         for v in f._disp_verts:
             last = v.x == size - 1 or v.y == size - 1
             vd: dict[str, Any] = {
